@@ -3,7 +3,7 @@
    finite sequence of editing / navigation / selection actions, end-of-event truncations, redraws and
    result-list updates; is_alnum (the Unicode letter/number table) and the configuration c (--multi limit,
    --cycle, layout, --no-input, --track, window height, --scroll-off, --filepath-word) are arbitrary. *)
-From Fzf Require Import Prelude EditSpec EditModel EditProofs EditRefine.
+From Fzf Require Import Prelude EditSpec EditModel EditProofs EditRefine EditMultiSpec EditMultiModel EditMultiProofs.
 Open Scope Z_scope.
 
 (* the model never fails: no slice of the query is out of range, the current line is always range-checked,
@@ -253,3 +253,66 @@ Proof.
   split; [reflexivity|]. split; [unfold cur_shown; cbn; lia|].
   eexists. split; [reflexivity|]. vm_compute. repeat split; reflexivity.
 Qed.
+
+(* ---- sessions in which the --multi limit changes (change-multi) -------------------------------------------
+   A session state is (cfg, st): change-multi assigns t.multi, every other action is EditModel.do_action under the
+   configuration of the moment (xrun).  The theorems above speak about every stretch between two limit changes
+   (session_without_change_is_run); the ones below carry the selection rules across the changes. *)
+
+Theorem session_never_fails : forall is_alnum xs cs,
+  (s_cx (snd cs) <= length (s_input (snd cs)))%nat -> exists cs', xrun is_alnum cs xs = Ok cs'.
+Proof. exact xrun_never_fails_proof. Qed.
+Print Assumptions session_never_fails.
+
+(* never more selected lines than the limit IN FORCE, for every history of actions and limit changes *)
+Theorem sel_limit_changing_multi : forall is_alnum xs cs cs',
+  Z.of_nat (length (s_sel (snd cs))) <= c_multi (fst cs) -> xrun is_alnum cs xs = Ok cs' ->
+  Z.of_nat (length (s_sel (snd cs'))) <= c_multi (fst cs').
+Proof. exact xsel_limit_proof. Qed.
+Print Assumptions sel_limit_changing_multi.
+
+(* nothing is selected whenever multi-select is off, however it came to be off *)
+Theorem no_selection_while_multi_off : forall is_alnum xs cs cs',
+  Z.of_nat (length (s_sel (snd cs))) <= c_multi (fst cs) -> xrun is_alnum cs xs = Ok cs' ->
+  c_multi (fst cs') = 0 -> s_sel (snd cs') = [].
+Proof. exact xno_select_without_multi_proof. Qed.
+Print Assumptions no_selection_while_multi_off.
+
+Theorem change_multi_off_clears : forall c s c' s',
+  Z.of_nat (length (s_sel s)) <= c_multi c -> change_multi c s (CMNum 0) = (c', s') -> c_multi c' = 0 /\ s_sel s' = [].
+Proof. exact change_multi_off_clears_proof. Qed.
+Print Assumptions change_multi_off_clears.
+
+(* a limit change is the spec's step (the limit becomes limit_after; a different limit starts a new selection, the same
+   limit changes nothing) on what the user sees, from a state that obeys the limit in force; query line, list and
+   cursor are untouched.  Under --no-input the query cursor is at the end of the query (inputless_query_constant). *)
+Theorem change_multi_refines_spec : forall isw c s m c' s',
+  Z.of_nat (length (s_sel s)) <= c_multi c -> (c_inputless c = false \/ s_cx s = length (s_input s)) ->
+  change_multi c s m = (c', s') ->
+  (sp_of c', sabs s') = xsstep isw (sp_of c, sabs s) (XChangeMulti m).
+Proof. exact change_multi_refines_spec_proof. Qed.
+Print Assumptions change_multi_refines_spec.
+
+Theorem session_without_change_is_run : forall is_alnum acts c s,
+  xrun is_alnum (c, s) (map XA acts) = (do s' <- run is_alnum c s acts; Ok (c, s')).
+Proof. exact xrun_without_change_proof. Qed.
+Print Assumptions session_without_change_is_run.
+
+(* non-vacuity: --multi=3, two lines selected; the same limit keeps them; change-multi(0) drops them and the next toggle
+   selects nothing; change-multi() allows selecting again; change-multi(-1) is no limit change; the final change-multi(1)
+   drops the two selected lines again *)
+Example c09_session_nonvacuous :
+  let c := mkCfg 3 false true false false 5 3 false in
+  let isal := fun x => (48 <=? x) && (x <=? 122) in
+  let rs := [(0, [97]); (1, [98]); (2, [99]); (3, [100])] in
+  let s0 := mkSt [] 0 [] rs 0 0 [] in
+  Z.of_nat (length (s_sel s0)) <= c_multi c /\
+  (exists cs, xrun isal (c, s0) [XA AToggle; XA AUp; XA AToggle; XChangeMulti (CMNum 3)] = Ok cs /\
+     map fst (s_sel (snd cs)) = [0; 1] /\ c_multi (fst cs) = 3) /\
+  (exists cs, xrun isal (c, s0) [XA AToggle; XA AUp; XA AToggle; XChangeMulti (CMNum 0); XA AToggle; XA ASelectAll] = Ok cs /\
+     s_sel (snd cs) = [] /\ c_multi (fst cs) = 0 /\ s_cy (snd cs) = 1) /\
+  (exists cs, xrun isal (c, s0) [XA AToggle; XChangeMulti (CMNum 0); XChangeMulti CMNone; XA AUp; XA AToggle; XA AUp; XA AToggle;
+                                 XChangeMulti (CMNum (-1)); XChangeMulti CMBad] = Ok cs /\
+     map fst (s_sel (snd cs)) = [1; 2] /\ c_multi (fst cs) = MAXMULTI) /\
+  (exists cs, xrun isal (c, s0) [XA ASelectAll; XChangeMulti (CMNum 1)] = Ok cs /\ s_sel (snd cs) = [] /\ c_multi (fst cs) = 1).
+Proof. vm_compute. split; [discriminate|]. repeat split; eexists; repeat split. Qed.
